@@ -674,6 +674,12 @@ func (c *Ctx) fieldPathIn(st stepRef, v ssa.Value) (ssa.Value, []string) {
 	root, path := fieldPath(v)
 	if root != nil {
 		root = strip(c.upIn(st, root))
+		// the helper's receiver or parameter is itself a field path in the caller (c.h.lookup(...)
+		// reading h.Database): compose the two paths
+		if r2, p2 := fieldPath(root); r2 != nil && len(p2) > 0 && r2 != root {
+			root = strip(r2)
+			path = append(append([]string{}, p2...), path...)
+		}
 	}
 	return root, path
 }
